@@ -181,6 +181,16 @@ def run(report, db, tier):
     # stream from the connection for every frame
     from .c10 import transport_lookup
     transport_lookup(report, db, cg, M, rule_id='R01.9')
+    # the packet that announces the threshold must be decoded: its id is its
+    # own in the table of every version (C06's collision rule, for the
+    # set-compression classes only)
+    from ..common import borrow
+    from . import c06
+    borrow(report, 'R01.8', "the set-compression packet is decoded: no other "
+           "class shares its id in any supported version (C06's rules)",
+           lambda rid, c: rid in ('R06.1', 'R06.2')
+           and 'SetCompression' in c,
+           lambda sub: c06.run(sub, db, 'quick'))
     R7 = report.rule('R01.7', 'whatever threshold is in force: every '
                      'set-compression arm (login, and play for protocol <= '
                      '47) stores the threshold and switches compression on')
@@ -317,6 +327,29 @@ def reader(report, db, S, M, rule_id='R01.2'):
                 e.fn[2] if e.fn[0] == 'fn' and len(e.fn) > 2 else None)
         bufs = set(recv(e) for e in top if recv(e) is not None
                    and recv(e)[0] == 'obj' and recv(e)[3] is pb)
+        if not bufs:
+            # no buffer is made on this path: are the stream's bytes collected
+            # in something that outlives the call (an attribute of the
+            # reactor, its class, the connection)?
+            shared = [e for e in evs if e.method() in ('send', 'write',
+                                                       'extend', 'append')
+                      and recv(e) is not None and recv(e)[0] == 'attr'
+                      and any(x[0] == 'call' and (
+                          (x[1][0] == 'attr' and struct(x[1][1]) == stream)
+                          or (x[1][0] == 'fn' and len(x[1]) > 2
+                              and x[1][2] is not None
+                              and struct(x[1][2]) == stream))
+                              for a in e.args for x in subterms(a))]
+            if shared:
+                report.violation(
+                    R, 'reader:shared-buffer', rp.path, shared[0].node,
+                    rp.qualname, 'the bytes of a frame are collected in %s, '
+                    'which outlives the call: another reactor / another '
+                    'thread reading at the same time (a second connection '
+                    'in the process, a successor thread) resets and fills '
+                    'the same buffer, and this read then decodes the other '
+                    'one\'s bytes' % show(recv(shared[0])))
+                return
         if len(bufs) not in (1, 2):
             raise AnalysisError('read_packet: expected one frame buffer per '
                                 'path (or a second one holding the inflated '
